@@ -633,7 +633,9 @@ func (x *Exec) strCat(a, b Term) Term {
 		return a
 	}
 	t := app("u_scat", a.S, b.S)
-	x.vc.axiom(mkEq(app("u_slen", t), app("+", app("u_slen", a.S), app("u_slen", b.S))))
+	if !mentionsBound(a.S) && !mentionsBound(b.S) {
+		x.vc.axiom(mkEq(app("u_slen", t), app("+", app("u_slen", a.S), app("u_slen", b.S))))
+	}
 	return Term{S: t, Sort: SStr, T: types.Typ[types.String]}
 }
 
@@ -967,4 +969,14 @@ func (x *Exec) bytesToString(n *Node, st *State, v Term, elem types.Type) Term {
 		return x.nameTerm(n, "b2s", r)
 	}
 	return r
+}
+
+// mentionsBound: the term mentions a quantifier-bound variable (instance axioms must not capture those).
+func mentionsBound(s string) bool {
+	for id := range identSet(s) {
+		if strings.HasPrefix(id, "q_") {
+			return true
+		}
+	}
+	return false
 }
